@@ -101,6 +101,37 @@ func (r *storeRun) doLoad(l string) {
 	r.events.Encode(storeEv{Op: "Load", L: l, Res: res})
 }
 
+// doObserve: what a loader created now (another process, a restart) reads - the content of the file
+func (r *storeRun) doObserve() {
+	old := r.ld["obs"]
+	r.ld["obs"] = session.NewFromFile(r.path)
+	res := ""
+	func() {
+		defer func() {
+			if p := recover(); p != nil {
+				res = "panic"
+			}
+		}()
+		got, err := r.ld["obs"].Load()
+		switch {
+		case err != nil && errs.IsNotFound(err):
+			res = "notfound"
+		case err != nil:
+			res = "error"
+		case sessEq(got, r.sess["s1"]):
+			res = "s1"
+		case sessEq(got, r.sess["s2"]):
+			res = "s2"
+		default:
+			res = "other"
+		}
+	}()
+	if old == nil {
+		delete(r.ld, "obs")
+	}
+	r.events.Encode(storeEv{Op: "Observe", Res: res})
+}
+
 // bytes that Store would write for s (obtained from the code itself, through a side file)
 func (r *storeRun) image(s string) []byte {
 	side := filepath.Join(r.dir, "side.json")
@@ -212,6 +243,8 @@ func init() {
 					exec(s)
 					nops++
 				}
+				r.doObserve() // the last store wins for everybody, not only for the loaders that took part
+				nops++
 			}
 			if len(prefix) == *maxLen {
 				return
